@@ -1,11 +1,11 @@
 package main
 
 import (
-	"strconv"
 	"bytes"
 	"fmt"
 	"math"
 	"reflect"
+	"strconv"
 	"strings"
 	"time"
 
